@@ -13,6 +13,8 @@ def run(tier, seed, t0):
     from checks import common_hook as ch
     try:
         cases += ch.cases(PID, seed, tier, 6 if tier != "thorough" else 30)
+        if tier == "thorough":
+            cases += ch.memcheck_cases(PID, seed, 6)
     except vlib.BuildError as e:
         c = vlib.Case(7_000_000); c.engine = "LD_PRELOAD interposition"; c.verdict = "inconclusive"; c.sig = "harness/hook-dylib-build-failed"; c.detail = str(e); cases.append(c)
     return vlib.finish(PID, tier, seed, "exploration", cases, rule=RULE, t0=t0, replay_builder=cl.rb_factory("c15", seed),
